@@ -5,6 +5,7 @@ import Astm.Model.Encodings
 import Astm.Model.TreeWire
 import Astm.Model.Lims
 import Astm.Model.Simulator
+import Astm.Model.Archive
 
 open Astm Astm.Wire
 
@@ -125,6 +126,30 @@ def handle (toks : List String) : String :=
       "ok " ++ " ; ".intercalate (outs.map showTOut) ++ " | " ++ ",".intercalate live
     | _, _ => "bad-arg"
   | ["default-timeout"] => s!"ok {TIMEOUT}"
+  | "arch" :: toks =>
+    -- F:<stamp>.<k>:<hex>  pre-existing file;  M:<hex> message of the next writer;  C:<w>.<now> readClock;  S:<w> step
+    let parseName := fun (t : String) => match t.splitOn "." with
+      | [a, b] => do let x ← a.toNat?; let y ← b.toNat?; pure (x, y)
+      | _ => none
+    let files := toks.filterMap fun t => if t.startsWith "F:" then
+        match (t.drop 2).toString.splitOn ":" with
+        | [nm, h] => do let n ← parseName nm; let b ← ofHex h; pure (n, b)
+        | _ => none else none
+    let msgs := toks.filterMap fun t => if t.startsWith "M:" then ofHex (t.drop 2).toString else none
+    let acts := toks.filterMap fun t =>
+      if t.startsWith "C:" then (parseName (t.drop 2).toString).map fun (w, now) => Astm.Arch.Act.readClock w now
+      else if t.startsWith "S:" then ((t.drop 2).toString.toNat?).map Astm.Arch.Act.step
+      else none
+    let fs0 : Astm.Arch.Name → Option Bytes := fun n => (files.find? (·.1 == n)).map (·.2)
+    let W0 : Astm.Arch.World := { fs := fs0, ws := fun w => { msg := (msgs[w]?).getD [] } }
+    let W := Astm.Arch.run W0 acts
+    let stamps := (files.map (·.1.1) ++ acts.filterMap fun a => match a with | .readClock _ now => some now | _ => none).eraseDups
+    let kmax := msgs.length + files.length + 1 + (files.map (·.1.2)).foldl max 0
+    let names := stamps.flatMap fun s => (List.range (kmax + 1)).map fun k => (s, k)
+    let listing := names.filterMap fun n => (W.fs n).map fun b => s!"{n.1}.{n.2}:{toHex b}"
+    let pcs := (List.range msgs.length).map fun w => match (W.ws w).pc with
+      | .start => "start" | .named s k => s!"named{s}.{k}" | .created n => s!"created{n.1}.{n.2}" | .done n => s!"done{n.1}.{n.2}"
+    "ok " ++ " ".intercalate listing ++ " | " ++ " ".intercalate pcs
   | "sim" :: toks =>
     let ls := toks.filter (·.startsWith "L:")
     let rs := toks.filter (·.startsWith "R:")
